@@ -81,6 +81,8 @@ def binop(I, op, a, b):
         if a.et != b.et:
             raise Unsupported("list concat of different element types")
         i = z3.Int("cc_i")
+        if getattr(I.cur_contract, "named_seqs", False) and not I.spec:
+            return named_concat(I, a, b)
         arr = z3.Lambda([i], z3.If(i < a.n, z3.Select(a.arr, i), z3.Select(b.arr, i - a.n)))
         return VSeq(arr, a.n + b.n, a.et, "list")
     if isinstance(op, ast.Mod) and isinstance(a, VStr):
@@ -98,6 +100,24 @@ def binop(I, op, a, b):
     if I.spec:
         raise Unsupported("binop %s on %s,%s" % (type(op).__name__, type(a).__name__, type(b).__name__))
     I.raise_exc("TypeError", "unsupported operand types")
+
+
+def named_concat(I, a, b):
+    """contract option named_seqs: a + b as a *named* array constrained pointwise with explicit triggers (same meaning
+    as the lambda encoding, but quantifier instantiation can chain through it)"""
+    i = z3.Int("cc_i")
+    res = I.fresh_value(TList(a.et), "cat")
+    p = I.path
+    p.assume(res.n == a.n + b.n)
+    plain = lambda arr: not z3.is_quantifier(arr)
+    pa = [z3.Select(res.arr, i)] + ([z3.Select(a.arr, i)] if plain(a.arr) else [])
+    p.assume(z3.ForAll([i], z3.Implies(z3.And(0 <= i, i < a.n), z3.Select(res.arr, i) == z3.Select(a.arr, i)), patterns=pa))
+    p.assume(z3.ForAll([i], z3.Implies(z3.And(a.n <= i, i < a.n + b.n), z3.Select(res.arr, i) == z3.Select(b.arr, i - a.n)),
+                       patterns=[z3.Select(res.arr, i)]))
+    if plain(b.arr):
+        p.assume(z3.ForAll([i], z3.Implies(z3.And(0 <= i, i < b.n), z3.Select(res.arr, a.n + i) == z3.Select(b.arr, i)),
+                           patterns=[z3.Select(b.arr, i)]))
+    return res
 
 
 def seq_copy(s):
@@ -132,6 +152,16 @@ def contains(I, cont, x):
         if cont.kind == "keys":
             return contains(I, cont.m, x)
         raise Unsupported("in on dict view")
+    if isinstance(cont, VLocals):
+        c = const_of(x) if isinstance(x, VStr) else _NOCONST
+        if not isinstance(c, str):
+            raise Unsupported("symbolic name looked up in locals()")
+        if cont.env.lookup(c) is not None:
+            return z3.BoolVal(True)
+        if cont.assigned_somewhere(c):
+            I.ver.note_assumption("'name' in locals() for a name first bound inside a cut loop is nondeterministic")
+            return I.path.fresh("locals_has_" + c, z3.BoolSort())
+        return z3.BoolVal(False)
     if isinstance(cont, VDictRec):
         c = const_of(x) if isinstance(x, VStr) else _NOCONST
         if isinstance(c, str):
@@ -139,6 +169,13 @@ def contains(I, cont, x):
         if isinstance(x, VStr):
             return z3.Or([x.e == z3.StringVal(k) for k in cont.fields] + [z3.BoolVal(False)])
         return z3.BoolVal(False)
+    if isinstance(cont, VRec) and getattr(cont.t, "dictshape", False):
+        c = const_of(x) if isinstance(x, VStr) else _NOCONST
+        if isinstance(c, str):
+            if c not in cont.fields:
+                return z3.BoolVal(False)
+            return z3.Not(cont.fields[c].is_none()) if c in cont.t.optkeys else z3.BoolVal(True)
+        raise Unsupported("symbolic key membership in a dict-shaped record")
     if isinstance(cont, VSeq):
         i = z3.Int(I.path.fresh_name("in_i"))
         el = cont.et.wrap(z3.Select(cont.arr, i))
@@ -195,6 +232,16 @@ def subscript(I, o, k):
             kk = unwrap(k, o.kt)
         except TypeError:
             I.raise_exc("KeyError", "key of wrong type")
+        if getattr(o, "default_e", None) is not None and not I.spec:
+            # collections.defaultdict: reading a missing key inserts the default and yields it (no KeyError)
+            present = z3.Select(o.dom, kk)
+            val = z3.If(present, z3.Select(o.val, kk), o.default_e)
+            o.val = z3.Store(o.val, kk, val)
+            o.dom = z3.Store(o.dom, kk, z3.BoolVal(True))
+            o.card = z3.simplify(o.card + z3.If(present, 0, 1))
+            I.path.assume(o.card >= 1)
+            o.writeback()
+            return o.vt.wrap(val)
         I.require_defined(z3.Select(o.dom, kk), "KeyError", "missing key")
         I.ver.on_map_read(I, o, kk)
         return o.get(kk)
@@ -211,6 +258,17 @@ def subscript(I, o, k):
         for j in range(len(o.items) - 2, -1, -1):
             cur = I.ite(idx == j, o.items[j], cur)
         return cur
+    if isinstance(o, VLocals):
+        c = const_of(k) if isinstance(k, VStr) else _NOCONST
+        if not isinstance(c, str):
+            raise Unsupported("symbolic name looked up in locals()")
+        v = o.env.lookup(c)
+        if v is not None:
+            return v
+        lt = I.ver.local_type(I, c)
+        if lt is None or not o.assigned_somewhere(c):
+            raise Unsupported("locals()[%r]: unbound name without a declared local type" % c)
+        return I.fresh_value(lt, "locals_" + c)
     if isinstance(o, VDRec):
         c = const_of(k) if isinstance(k, VStr) else _NOCONST
         if not isinstance(c, str):
@@ -232,6 +290,17 @@ def subscript(I, o, k):
         if not o.fields:
             I.raise_exc("KeyError", "empty dict")
         raise Unsupported("symbolic key into literal dict")
+    if isinstance(o, VRec) and getattr(o.t, "dictshape", False):
+        c = const_of(k) if isinstance(k, VStr) else _NOCONST
+        if not isinstance(c, str):
+            raise Unsupported("symbolic key into a dict-shaped record")
+        if c not in o.fields:
+            I.raise_exc("KeyError", c)
+        if c in o.t.optkeys:
+            f = o.fields[c]
+            I.require_defined(z3.Not(f.is_none()), "KeyError", c)
+            return f.val()
+        return o.fields[c]
     if isinstance(o, VStr):
         idx = to_int(k)
         n = z3.Length(o.e)
@@ -367,6 +436,8 @@ def set_add(I, s, kk):
 def store_subscript(I, o, k, v):
     o = I.force(o)
     k = I.force(k)
+    if isinstance(o, VRec) and getattr(o.t, "dictshape", False):
+        raise Unsupported("mutation of a dict-shaped record (%s)" % o.t.nm)
     if isinstance(o, VMap):
         kk = unwrap(k, o.kt)
         map_store(I, o, kk, v)
@@ -438,6 +509,27 @@ class VMapView(V):
     def __init__(self, m, kind):
         self.m = m
         self.kind = kind
+
+
+class VLocals(V):
+    """the result of locals() used as a read-only mapping: `'x' in locals()` / `locals()['x']`.  A name bound in the
+    current activation is present with its value.  A name that is unbound *in the engine's environment* but assigned
+    somewhere in the function (e.g. first bound inside a loop that was cut by an invariant) may or may not be bound
+    in a real execution: membership is then a nondeterministic boolean and its value an arbitrary value of the
+    declared local type.  Any other name is absent."""
+    t = None
+
+    def __init__(self, env, fnode):
+        self.env = env
+        self.fnode = fnode
+
+    def assigned_somewhere(self, name):
+        if self.fnode is None:
+            return True
+        for n in ast.walk(self.fnode):
+            if isinstance(n, ast.Name) and n.id == name and isinstance(n.ctx, ast.Store):
+                return True
+        return False
 
 
 class VRange(V):
@@ -546,6 +638,11 @@ def get_attribute(I, o, name, default=_NOCONST):
                 return I.ev(ci.attrs[name], Env(None, ci.module))
         if name == "__dict__":
             return VDictRec(o.fields)
+    elif isinstance(o, VRec) and getattr(o.t, "dictshape", False):
+        if name == "get":
+            return VFunc("bmethod", name, selfv=o)
+        if name in MAP_METHODS:
+            raise Unsupported("dict method %s on a dict-shaped record" % name)
     elif isinstance(o, VRec):
         if name in o.fields:
             return o.fields[name]
@@ -746,7 +843,11 @@ def call_contract(I, c, f, args, kwargs):
     for pn, ts in c.types.items():
         if pn in env.vars and isinstance(ts, str) and not ts.startswith("="):
             try:
-                env.vars[pn] = I.coerce_value(env.vars[pn], I.ver.types.parse(ts))
+                pt = I.ver.types.parse(ts)
+                if isinstance(env.vars[pn], VOpt) and not isinstance(pt, TOpt) and not I.spec:
+                    # an Optional actual for a non-Optional formal: resolve None-ness here (fork / path condition)
+                    env.vars[pn] = I.force(env.vars[pn])
+                env.vars[pn] = I.coerce_value(env.vars[pn], pt)
             except KeyError:
                 pass
     if I.spec:
@@ -1069,6 +1170,8 @@ def bi_str(I, args, kw):
         return VStr("None")
     if isinstance(v, VBool):
         return VStr(z3.If(v.e, z3.StringVal("True"), z3.StringVal("False")))
+    if isinstance(v, VUn) and v.t.nm in STRLIKE:
+        return v
     if isinstance(v, VPath):
         from . import fsmodel
         return fsmodel.path_str(I, v)
@@ -1172,6 +1275,8 @@ def _isinst(I, v, nm):
         return nm in ("str",)
     if isinstance(v, VNone):
         return nm == "NoneType"
+    if isinstance(v, VUn) and v.t.nm in STRLIKE:
+        return nm == "str"
     if isinstance(v, (VJDict, VDRec)):
         return nm in ("dict", "Mapping", "MutableMapping")
     if isinstance(v, VJSet):
@@ -1193,7 +1298,7 @@ def _isinst(I, v, nm):
     if isinstance(v, (VSet, VEmptySet)):
         return nm in ("set",)
     if isinstance(v, VRec):
-        if getattr(v.t, "dictlike", False):
+        if getattr(v.t, "dictlike", False) or getattr(v.t, "dictshape", False):
             return nm in ("dict", "Mapping", "MutableMapping")
         return nm == v.t.nm
     if isinstance(v, VObj):
@@ -1279,6 +1384,10 @@ def to_seq(I, v):
         return view_to_seq(I, VMapView(v, "keys"))
     if isinstance(v, VDictRec):
         return I.mk_list([VStr(k) for k in v.fields])
+    if isinstance(v, VRange) and v.step == 1:
+        lo, hi = to_int(v.lo), to_int(v.hi)
+        i = z3.Int("rg_i")
+        return VSeq(z3.Lambda([i], lo + i), z3.simplify(z3.If(hi > lo, hi - lo, 0)), TInt, "list")
     if isinstance(v, (VNone, VInt, VReal, VBool)):
         I.raise_exc("TypeError", "object is not iterable")
     raise Unsupported("list() of %s" % type(v).__name__)
@@ -1443,6 +1552,11 @@ def sort_seq(I, v, key, reverse=False):
     p.assume(z3.ForAll([j], z3.Implies(z3.And(0 <= j, j < n),
                                       z3.And(0 <= sgi(j), sgi(j) < n, sg(sgi(j)) == j,
                                              z3.Select(res.arr, sgi(j)) == z3.Select(v.arr, j)))))
+    # the same fact again, instantiable at a trig()-marked index (see Interp.spec_trig)
+    mk = z3.Function("trig_mark", z3.IntSort(), z3.BoolSort())
+    p.assume(z3.ForAll([j], z3.Implies(z3.And(mk(j), 0 <= j, j < n),
+                                      z3.And(0 <= sgi(j), sgi(j) < n, sg(sgi(j)) == j,
+                                             z3.Select(res.arr, sgi(j)) == z3.Select(v.arr, j))), patterns=[mk(j)]))
 
     def keyof(e):
         x = v.et.wrap(e)
@@ -1477,8 +1591,11 @@ def sort_seq(I, v, key, reverse=False):
     ki, kj = keyof(z3.Select(res.arr, i)), keyof(z3.Select(res.arr, j))
     le = I.lt(kj, ki, False) if reverse else I.lt(ki, kj, False)
     keq = I.eq(ki, kj)
-    p.assume(z3.ForAll([i, j], z3.Implies(z3.And(0 <= i, i < j, j < n), le)))
-    p.assume(z3.ForAll([i, j], z3.Implies(z3.And(0 <= i, i < j, j < n, keq), sg(i) < sg(j))))
+    # `sort_facts=False` on a contract: the order produced by sorted()/sort() is irrelevant to its clauses, only the
+    # permutation facts are assumed (fewer assumptions: sound; keeps string-ordering atoms out of the goals)
+    if getattr(I.cur_contract, "sort_facts", True):
+        p.assume(z3.ForAll([i, j], z3.Implies(z3.And(0 <= i, i < j, j < n), le)))
+        p.assume(z3.ForAll([i, j], z3.Implies(z3.And(0 <= i, i < j, j < n, keq), sg(i) < sg(j))))
     res.perm = (sg, sgi, v)
     if not hasattr(p, "fn_witnesses"):
         p.fn_witnesses = []
@@ -1881,6 +1998,28 @@ def call_bmethod(I, o, name, args, kw):
         return jsontree.w_method(I, o, name, args, kw)
     if isinstance(o, VDictRec):
         return dictrec_method(I, o, name, args, kw)
+    if isinstance(o, VRec) and getattr(o.t, "dictshape", False) and name == "get":
+        c = const_of(args[0]) if isinstance(args[0], VStr) else _NOCONST
+        if not isinstance(c, str):
+            raise Unsupported("symbolic key lookup in a dict-shaped record")
+        default = args[1] if len(args) > 1 else kw.get("default", VNone())
+        if c not in o.fields:
+            return default
+        if c not in o.t.optkeys:
+            return o.fields[c]
+        f = o.fields[c]
+        if isinstance(default, VNone):
+            return f
+        if isinstance(default, VEmptyList) and isinstance(f.t.inner, TList):
+            default = VSeq(z3.K(z3.IntSort(), I.default_of(f.t.inner.elem)), z3.IntVal(0), f.t.inner.elem, "list")
+        try:
+            return I.ite(z3.Not(f.is_none()), f.val(), default)
+        except (Unsupported, TypeError):
+            if I.spec:
+                raise Unsupported("dict.get with incompatible default in spec")
+            if I.path.branch(z3.Not(f.is_none())):
+                return f.val()
+            return default
     if isinstance(o, (VSet, VEmptySet)):
         return set_method(I, o, name, args, kw)
     if isinstance(o, VStr):
@@ -1893,12 +2032,25 @@ def call_bmethod(I, o, name, args, kw):
     raise Unsupported("method %s of %s" % (name, type(o).__name__))
 
 
+def resolve_optionals(I, v, t):
+    """an Optional value stored where a non-Optional is expected (its None-ness was tested before, e.g. by isinstance):
+    resolve it on this path (fork; the None side is normally infeasible) -- also inside tuples"""
+    if I.spec:
+        return v
+    if isinstance(v, VOpt) and not isinstance(t, TOpt):
+        return I.force(v)
+    if isinstance(v, VTuple) and isinstance(t, TTuple) and len(v.items) == len(t.elems) and \
+            any(isinstance(x, VOpt) and not isinstance(et, TOpt) for x, et in zip(v.items, t.elems)):
+        return VTuple([resolve_optionals(I, x, et) for x, et in zip(v.items, t.elems)])
+    return v
+
+
 def seq_method(I, o, name, args, kw):
     p = I.path
     i = z3.Int("sm_i")
     if name == "append":
         check_literal_shape(I, args[0], o.et)
-        o.arr = z3.Store(o.arr, o.n, unwrap(args[0], o.et))
+        o.arr = z3.Store(o.arr, o.n, unwrap(resolve_optionals(I, args[0], o.et), o.et))
         o.n = z3.simplify(o.n + 1)
         o.writeback()
         return VNone()
@@ -1953,6 +2105,11 @@ def seq_method(I, o, name, args, kw):
         if isinstance(other, VEmptyList):
             return VNone()
         old, n0 = o.arr, o.n
+        if getattr(I.cur_contract, "named_seqs", False) and not I.spec:
+            r = named_concat(I, VSeq(old, n0, o.et), other)
+            o.arr, o.n = r.arr, r.n
+            o.writeback()
+            return VNone()
         o.arr = z3.Lambda([i], z3.If(i < n0, z3.Select(old, i), z3.Select(other.arr, i - n0)))
         o.n = z3.simplify(n0 + other.n)
         o.writeback()
@@ -2405,6 +2562,14 @@ def comprehension(I, n, env):
         et = lt
     elt_e = unwrap(elt, et)
     if not conds:
+        if getattr(I.cur_contract, "named_seqs", False) and not saved:
+            res = I.fresh_value(TList(et), "map")
+            p.assume(res.n == base.n)
+            pats = [z3.Select(res.arr, i)]
+            if base.arr is not None and not z3.is_quantifier(base.arr):
+                pats.append(z3.Select(base.arr, i))
+            p.assume(z3.ForAll([i], z3.Implies(z3.And(0 <= i, i < base.n), z3.Select(res.arr, i) == elt_e), patterns=pats))
+            return res
         return VSeq(z3.Lambda([i], elt_e), base.n, et, "list")
     cond = z3.And(conds)
     # filter: res[j] = elt(sel(j)), sel strictly increasing, hits exactly the indices satisfying cond
@@ -2763,6 +2928,8 @@ def _for_seq_inv(I, s, env, spec, n, item, seqv=None):
             except BreakSig:
                 return
             env.set(iname, VInt(i + 1))
+            if seqv is not None:
+                env.set(spec.get("iter", "_iter"), seqv)     # an inner for-loop rebinds the shared ghost name
             I.check_invariants(spec, env, name + "/inv-preserved")
             raise PathEnd("loop body end")
         I.exec_block(s.orelse, env)
